@@ -547,6 +547,9 @@ def write_evidence(run, mod, rc):
 
 def main(argv=None):
     ap = argparse.ArgumentParser()
+    import atexit
+    from . import lib as _lib
+    atexit.register(_lib.dump_shapes)
     ap.add_argument("prop")
     ap.add_argument("--tier", default=os.environ.get("VERIF_TIER", "quick"))
     ap.add_argument("--replay")
